@@ -1,9 +1,9 @@
--- tie T for C20, continued: the INNER loop of `fill_zero_roots` as regenerated from math/src/polynom/mod.rs on this
--- run coincides with the inner loop of the model's `fillStep` (value and exact panic condition), for every
--- operations record, and so does one iteration of the OUTER loop (`fzrStep_eq`: `n -= 1; result[n] = 0;` inner loop =
--- the model's `fillStep`).  Steps towards `fill_zero_roots` = `Model.Poly.fillZeroRoots`; the iteration of the outer
--- loop over `xs` (elements in the model, indices in the regenerated code) and the function itself are still tied by
--- evaluation only.
+-- tie T for C20, continued: `fill_zero_roots` as regenerated from math/src/polynom/mod.rs on this run coincides with
+-- the model's `fillZeroRoots` for EVERY operations record, all roots and every output slice a `usize` can index:
+-- inner loop (`fzrInner_eq`), one iteration of the outer loop = `fillStep` (`fzrStep_eq`), the outer loop over the
+-- roots - by element in the model, by index in the regenerated code - (`fzrOuter`), and the function
+-- (`gen_fill_zero_roots_eq`: the same vector when the regenerated no-panic condition holds, a panic of the model
+-- when it fails).
 import WinterProofs.Lemmas.C20Gen
 
 namespace C20G
@@ -78,5 +78,93 @@ theorem fzrStep_eq (xs : List α) (i : Nat) (hi : i < xs.length) (st : RootSt α
       split <;> simp_all [Res.bind]
     · unfold_gen Gen.Polynom
       simp [hk, hn, Res.bind]
+
+theorem fzrInner_length (xs : List α) (i : Nat) : ∀ (js : List Nat) (r : List α),
+    (Gen.Polynom.fill_zero_roots.for1_body.for1 O.toX xs i js r).length = r.length := by
+  intro js
+  induction js with
+  | nil => intro r; simp [Gen.Polynom.fill_zero_roots.for1_body.for1]
+  | cons j t ih =>
+    intro r
+    rw [Gen.Polynom.fill_zero_roots.for1_body.for1]
+    unfold_gen Gen.Polynom
+    rw [ih]; simp
+
+theorem fzrBody_length (xs : List α) (i n : Nat) (r : List α) :
+    (Gen.Polynom.fill_zero_roots.for1_body O.toX i r n xs).1.length = r.length := by
+  unfold_gen Gen.Polynom
+  rw [fzrInner_length]; simp
+
+/-- the OUTER loop of `fill_zero_roots` over the roots not yet consumed (`xs = pre ++ suf`; the model iterates over
+    the elements, the regenerated code over the indices): success with the same state, or a panic on both sides -/
+theorem fzrOuter (xs : List α) : ∀ (suf pre : List α) (st : RootSt α), xs = pre ++ suf →
+    st.result.length < 18446744073709551616 →
+    (Gen.Polynom.fill_zero_roots.for1_ok O.toX xs (List.range' pre.length suf.length) st.result st.n = true →
+      loopM suf st (fillStep O xs.length) =
+        .ok { result := (Gen.Polynom.fill_zero_roots.for1 O.toX xs (List.range' pre.length suf.length) st.result st.n).1,
+              n := (Gen.Polynom.fill_zero_roots.for1 O.toX xs (List.range' pre.length suf.length) st.result st.n).2 }) ∧
+    (Gen.Polynom.fill_zero_roots.for1_ok O.toX xs (List.range' pre.length suf.length) st.result st.n = false →
+      ∃ msg, loopM suf st (fillStep O xs.length) = .panic msg) := by
+  intro suf
+  induction suf with
+  | nil =>
+    intro pre st _ _
+    simp [loopM, Gen.Polynom.fill_zero_roots.for1, Gen.Polynom.fill_zero_roots.for1_ok]
+  | cons x suf ih =>
+    intro pre st hxs hr
+    have hi : pre.length < xs.length := by rw [hxs]; simp
+    have hx : xs.getD pre.length O.zero = x := by rw [hxs]; simp [List.getD]
+    have hrange : List.range' pre.length (x :: suf).length =
+        pre.length :: List.range' (pre ++ [x]).length suf.length := by simp [List.range'_succ]
+    have hstep := fzrStep_eq O xs pre.length hi st hr
+    rw [hx] at hstep
+    rw [hrange, loopM, hstep, Gen.Polynom.fill_zero_roots.for1, Gen.Polynom.fill_zero_roots.for1_ok]
+    cases hok : Gen.Polynom.fill_zero_roots.for1_body_ok O.toX pre.length st.result st.n xs with
+    | false => simp
+    | true =>
+      simp only [if_true, Bool.true_and]
+      exact ih (pre ++ [x])
+        { result := (Gen.Polynom.fill_zero_roots.for1_body O.toX pre.length st.result st.n xs).1,
+          n := (Gen.Polynom.fill_zero_roots.for1_body O.toX pre.length st.result st.n xs).2 }
+        (by rw [hxs]; simp) (by simpa [fzrBody_length] using hr)
+
+/-- ★ `fill_zero_roots` (regenerated: `n = result.len() - 1; result[n] = 1;` outer loop over the roots with its inner
+    loop) IS the model's `fillZeroRoots`: the same vector whenever the regenerated no-panic condition holds, and a panic
+    of the model whenever it fails; for every output slice a `usize` can index, whatever it held before -/
+theorem gen_fill_zero_roots_eq (xs result : List α) (hr : result.length < 18446744073709551616) :
+    (Gen.Polynom.fill_zero_roots_ok O.toX xs result = true →
+      fillZeroRoots O xs result = .ok (Gen.Polynom.fill_zero_roots O.toX xs result)) ∧
+    (Gen.Polynom.fill_zero_roots_ok O.toX xs result = false →
+      ∃ msg, fillZeroRoots O xs result = .panic msg) := by
+  unfold fillZeroRoots
+  by_cases h0 : result.length = 0
+  · unfold_gen Gen.Polynom
+    simp [h0]
+  · have h1 : 1 ≤ result.length := by omega
+    have hk : result.length - 1 < result.length := by omega
+    rw [if_neg h0]
+    dsimp only
+    rw [setAt_eq, if_pos hk]
+    change (_ → Res.bind (loopM xs ({ result := result.set (result.length - 1) O.one, n := result.length - 1 } : RootSt α) _) _ = _) ∧ _
+    obtain ⟨a1, a2⟩ := fzrOuter O xs xs [] { result := result.set (result.length - 1) O.one, n := result.length - 1 }
+      (by simp) (by simpa using hr)
+    simp only [List.length_nil] at a1 a2
+    unfold_gen Gen.Polynom
+    simp only [toX_one, h1, hk, decide_true, Bool.true_and, Nat.sub_zero]
+    constructor
+    · intro hok
+      have hok' := of_decide_eq_true hok
+      show Res.bind (loopM xs ({ result := result.set (result.length - 1) O.one, n := result.length - 1 } : RootSt α)
+        (fillStep O xs.length)) _ = _
+      rw [a1 hok']
+      rfl
+    · intro hok
+      have hok' := Bool.eq_false_iff.mpr (of_decide_eq_false hok)
+      obtain ⟨msg, hm⟩ := a2 hok'
+      refine ⟨msg, ?_⟩
+      show Res.bind (loopM xs ({ result := result.set (result.length - 1) O.one, n := result.length - 1 } : RootSt α)
+        (fillStep O xs.length)) _ = _
+      rw [hm]
+      rfl
 
 end C20G
